@@ -26,7 +26,8 @@ Proof. destruct a; reflexivity. Qed.
 Inductive operand := Num (text : list chr) | Pct (text : list chr) (w : blanks) (ptxt : list chr)
   | Paren (po pc : list chr) (w1 : blanks) (e : expr) (w2 : blanks)
 with expr := Chain (x : operand) (r : tail)
-with tail := TNil | TCons (wb : blanks) (a : arith) (atxt : list chr) (wa : blanks) (x : operand) (r : tail).
+with tail := TNil | TCons (wb : blanks) (a : arith) (atxt : list chr) (wa : blanks) (x : operand) (r : tail)
+  | TTo (wb : blanks) (ttxt : list chr) (wa : blanks) (u : list chr) (r : tail).   (* `to` and a unit word *)
 Scheme operand_mut := Induction for operand Sort Prop
   with expr_mut := Induction for expr Sort Prop
   with tail_mut := Induction for tail Sort Prop.
@@ -40,13 +41,19 @@ Fixpoint toks_operand (x : operand) : list tok :=
   end
 with toks_expr (e : expr) : list tok := match e with Chain x r => toks_operand x ++ toks_tail r end
 with toks_tail (r : tail) : list tok :=
-  match r with TNil => [] | TCons wb a txt wa x r' => wst wb ++ (akind a, txt) :: wst wa ++ toks_operand x ++ toks_tail r' end.
+  match r with
+  | TNil => []
+  | TCons wb a txt wa x r' => wst wb ++ (akind a, txt) :: wst wa ++ toks_operand x ++ toks_tail r'
+  | TTo wb txt wa u r' => wst wb ++ (TO, txt) :: wst wa ++ [(WORD, u)] ++ toks_tail r'
+  end.
 
-Fixpoint prios (r : tail) : list nat := match r with TNil => [] | TCons _ a _ _ _ r' => aprio a :: prios r' end.
+Fixpoint prios (r : tail) : list nat :=
+  match r with TNil => [] | TCons _ a _ _ _ r' => aprio a :: prios r' | TTo _ _ _ _ r' => 1 :: prios r' end.
 Fixpoint tglue (r : tail) (m : nat) : list Grammar.tree :=
   match r with
   | TNil => []
   | TCons wb a txt wa _ r' => match m with O => wsT wb ++ [Grammar.Node (anode a) [Tok (akind a) txt]] ++ wsT wa | S m' => tglue r' m' end
+  | TTo wb txt wa _ r' => match m with O => wsT wb ++ [Grammar.Node OP_CAST [Tok TO txt]] ++ wsT wa | S m' => tglue r' m' end
   end.
 
 (* the syntax tree the grammar prescribes: groups in parentheses on their own, inside a group the abstract tree of the
@@ -68,11 +75,13 @@ with tbody (r : tail) (m : nat) {struct r} : list Grammar.tree :=
   match r with
   | TNil => []
   | TCons _ _ _ _ x r' => match m with O => trees_operand x | S m' => tbody r' m' end
+  | TTo _ _ _ u r' => match m with O => [Grammar.Node UNIT [Grammar.Node WORD [Tok WORD u]]] | S m' => tbody r' m' end
   end.
 
 Fixpoint need_operand (x : operand) : nat := match x with Num _ | Pct _ _ _ => 1 | Paren _ _ _ e _ => S (need_expr e) end
 with need_expr (e : expr) : nat := match e with Chain x r => S (Nat.max (need_operand x) (need_tail r)) end
-with need_tail (r : tail) : nat := match r with TNil => 0 | TCons _ _ _ _ x r' => Nat.max (need_operand x) (need_tail r') end.
+with need_tail (r : tail) : nat :=
+  match r with TNil => 0 | TCons _ _ _ _ x r' => Nat.max (need_operand x) (need_tail r') | TTo _ _ _ _ r' => need_tail r' end.
 
 (* ---- small facts about buffers ---- *)
 Lemma wst_length w : length (wst w) = length w. Proof. apply map_length. Qed.
@@ -151,10 +160,56 @@ Proof.
   rewrite <- (app_assoc (F ++ wsT w)). rewrite close_at_mk. rewrite app_length, <- !app_assoc. reflexivity.
 Qed.
 
+(* what may follow a unit word so that unit() ends there: not a token that unit() takes into the unit without a blank
+   (a word, `to`, a number, * / ^), and after one blank neither a number nor a word *)
+Definition unit_follows (rest : list tok) : Prop :=
+  match kind_at rest 0 with
+  | WORD | TO | NUMBER | STAR | SLASH | CARET | STARSTAR => False
+  | WHITESPACE => kind_at rest 1 <> NUMBER /\ kind_at rest 1 <> WORD
+  | _ => True
+  end.
+Definition tight_ok (r : tail) : Prop :=
+  match r with
+  | TNil => True
+  | TCons [] a _ _ _ _ => a = APlus \/ a = ADash
+  | TTo [] _ _ _ _ => False
+  | _ => True
+  end.
+(* well-formed: a unit word is followed by a blank before * / ^ and `to` *)
+Fixpoint wf_operand (x : operand) : Prop := match x with Paren _ _ _ e _ => wf_expr e | _ => True end
+with wf_expr (e : expr) : Prop := match e with Chain x r => wf_operand x /\ wf_tail r end
+with wf_tail (r : tail) : Prop :=
+  match r with
+  | TNil => True
+  | TCons _ _ _ _ x r' => wf_operand x /\ wf_tail r'
+  | TTo _ _ _ _ r' => tight_ok r' /\ wf_tail r'
+  end.
+
+Lemma unit_operand fuel w u rest : unit_follows rest ->
+  OperandAt (value fuel) true (length w) (wst w ++ (WORD, u) :: rest) (wsT w) [Grammar.Node UNIT [Grammar.Node WORD [Tok WORD u]]] rest.
+Proof.
+  intros Hu F. unfold operandf. rewrite bumps_mk, firstn_wst, skipn_wst. fold (wsT w).
+  unfold unit_. cbn [unit_loop]. rewrite nth_kind_mk. cbn [kind_at nth_error]. cbn [bumps].
+  change (bump_node WORD (mkst ((WORD, u) :: rest) ?G)) with (mkst rest (G ++ [Grammar.Node WORD [Tok WORD u]])).
+  change (checkpoint (mkst ((WORD, u) :: rest) ?G)) with (length G).
+  change (length (buf (mkst rest ?G))) with (length rest).
+  cbn [unit_trail]. rewrite nth_kind_mk. unfold unit_follows in Hu.
+  destruct (kind_at rest 0) eqn:K0; try contradiction.
+  1: { (* a blank follows *)
+    destruct Hu as [H1 H2]. cbn [length buf mkst]. cbn [unit_loop]. rewrite nth_kind_mk.
+    destruct (kind_at rest 1); try congruence; rewrite close_at_mk; rewrite app_length, <- app_assoc; reflexivity. }
+  all: rewrite close_at_mk; rewrite app_length, <- app_assoc; reflexivity.
+Qed.
+
 Definition operand_spec (fuel : nat) (x : operand) : Prop := forall w rest, follows rest ->
   OperandAt (value fuel) false (length w) (wst w ++ toks_operand x ++ rest) (wsT w) (trees_operand x) rest.
-Definition expr_spec (fuel : nat) (e : expr) : Prop := forall w rest F, follows rest -> op_of (next_kind rest) = None ->
+Definition expr_spec (fuel : nat) (e : expr) : Prop := forall w rest F, follows rest -> unit_follows rest -> op_of (next_kind rest) = None ->
   operation fuel (length w) (mkst (wst w ++ toks_expr e ++ rest) F) = Some (Some (count_ws rest), mkst rest (F ++ trees_expr w e)).
+
+Lemma unit_follows_close w2 pc rest : unit_follows (wst w2 ++ (CLOSE_PAREN, pc) :: rest).
+Proof. unfold unit_follows. destruct w2 as [|x [|y w2]]; cbn; try exact I; split; discriminate. Qed.
+Lemma unit_follows_end w1 : unit_follows (wst w1).
+Proof. unfold unit_follows. destruct w1 as [|x [|y w1]]; cbn; try exact I; split; discriminate. Qed.
 
 Lemma paren_operand fuel po pc w1 e w2 : expr_spec fuel e -> operand_spec (S fuel) (Paren po pc w1 e w2).
 Proof.
@@ -170,17 +225,12 @@ Proof.
   { rewrite count_ws_wst. destruct e as [x r]. cbn [toks_expr]. rewrite <- app_assoc, count_ws_operand. lia. }
   rewrite Hc.
   assert (Hn : next_kind rest' = CLOSE_PAREN) by (unfold rest'; now rewrite next_kind_wst).
-  rewrite (He w1 rest' _); [|unfold follows; rewrite Hn; repeat split; discriminate|now rewrite Hn].
+  rewrite (He w1 rest' _); [|unfold follows; rewrite Hn; repeat split; discriminate|apply unit_follows_close|now rewrite Hn].
   assert (Hc2 : count_ws rest' = length w2) by (unfold rest'; rewrite count_ws_wst; cbn; lia).
   rewrite Hc2. unfold eat. cbn [kinds_match]. rewrite nth_kind_mk. unfold rest' at 1. rewrite kind_at_wst. cbn [fst kind_beq andb].
   rewrite bumps_mk. cbn [length]. unfold rest'.
   replace (length w2 + 1) with (S (length w2)) by lia.
-  assert (Hs : skipn (S (length w2)) (wst w2 ++ (CLOSE_PAREN, pc) :: rest) = rest).
-  { pose proof (skipn_nth_error _ _ _ (nth_error_wst w2 (CLOSE_PAREN, pc) rest)) as E. rewrite skipn_wst in E. inversion E as [E']. now rewrite <- E'. }
-  assert (Hfst : firstn (S (length w2)) (wst w2 ++ (CLOSE_PAREN, pc) :: rest) = wst w2 ++ [(CLOSE_PAREN, pc)]).
-  { rewrite <- (wst_length w2). rewrite firstn_app. rewrite firstn_all2 by lia.
-    replace (S (length (wst w2)) - length (wst w2)) with 1 by lia. reflexivity. }
-  rewrite Hs, Hfst. unfold checkpoint, mkst at 1. cbn [forest].
+  rewrite skipn_S_wst, firstn_S_wst. unfold checkpoint, mkst at 1. cbn [forest].
   f_equal. f_equal; [now rewrite app_length, wsT_length|].
   unfold mkst. f_equal. cbn [trees_operand]. rewrite map_app. fold (wsT w2). cbn [map toktree fst snd].
   rewrite <- !app_assoc. reflexivity.
@@ -189,28 +239,51 @@ Qed.
 (* ---- chains ---- *)
 Lemma follows_tail r rest : follows rest -> follows (toks_tail r ++ rest).
 Proof.
-  intros H. destruct r as [|wb a txt wa x r']; [exact H|]. cbn [toks_tail]. rewrite <- app_assoc, <- app_comm_cons.
-  unfold follows. rewrite next_kind_wst by (destruct a; discriminate). cbn [fst]. destruct a; repeat split; discriminate.
+  intros H. destruct r as [|wb a txt wa x r'|wb txt wa u r']; [exact H| |]; cbn [toks_tail]; rewrite <- app_assoc, <- app_comm_cons;
+    unfold follows.
+  - rewrite next_kind_wst by (destruct a; discriminate). cbn [fst]. destruct a; repeat split; discriminate.
+  - rewrite next_kind_wst by discriminate. cbn [fst]. repeat split; discriminate.
+Qed.
+Lemma unit_follows_tail r rest : tight_ok r -> unit_follows rest -> unit_follows (toks_tail r ++ rest).
+Proof.
+  intros Ht Hr. destruct r as [|wb a txt wa x r'|wb txt wa u r']; [exact Hr| |]; cbn [toks_tail]; rewrite <- app_assoc, <- app_comm_cons;
+    unfold unit_follows; destruct wb as [|b1 [|b2 wb]]; cbn in *.
+  - destruct Ht as [-> | ->]; exact I.
+  - destruct a; split; discriminate.
+  - split; discriminate.
+  - contradiction.
+  - split; discriminate.
+  - split; discriminate.
 Qed.
 
-Lemma chain_run fuel : forall r x, operand_spec fuel x ->
-  (fix all (r : tail) : Prop := match r with TNil => True | TCons _ _ _ _ x' r' => operand_spec fuel x' /\ all r' end) r ->
+Fixpoint all_operands (fuel : nat) (r : tail) : Prop :=
+  match r with
+  | TNil => True
+  | TCons _ _ _ _ x' r' => operand_spec fuel x' /\ all_operands fuel r'
+  | TTo _ _ _ _ r' => all_operands fuel r'
+  end.
+
+Lemma chain_run fuel : forall r (u : bool) (cur_toks : list tok) (cur_trees : list Grammar.tree),
+  (forall w rest', follows rest' -> (u = true -> unit_follows rest') ->
+     OperandAt (value fuel) u (length w) (wst w ++ cur_toks ++ rest') (wsT w) cur_trees rest') ->
+  (forall l, count_ws (cur_toks ++ l) = 0) ->
+  (u = true -> tight_ok r) -> wf_tail r -> all_operands fuel r ->
   forall glue body i mid0 w rest,
-    glue i = mid0 ++ wsT w -> body i = trees_operand x ->
+    glue i = mid0 ++ wsT w -> body i = cur_trees ->
     (forall m, glue (S i + m) = tglue r m) -> (forall m, body (S i + m) = tbody r m) ->
-    follows rest -> op_of (next_kind rest) = None ->
-    Run glue body (value fuel) i false (length w) (wst w ++ toks_operand x ++ toks_tail r ++ rest) mid0 (prios r) (count_ws rest) rest.
+    follows rest -> unit_follows rest -> op_of (next_kind rest) = None ->
+    Run glue body (value fuel) i u (length w) (wst w ++ cur_toks ++ toks_tail r ++ rest) mid0 (prios r) (count_ws rest) rest.
 Proof.
-  induction r as [|wb a txt wa x' r' IH]; intros x Hx Hall glue body i mid0 w rest Hg Hb Hgl Hbd Hfo Hst.
-  - cbn [toks_tail prios app]. eapply Run_end; [rewrite Hb; apply Hx; exact Hfo|exact Hg|exact Hst].
-  - destruct Hall as [Hx' Hall]. cbn [prios].
+  induction r as [|wb a txt wa x' r' IH|wb txt wa un r' IH]; intros u cur_toks cur_trees Hcur Hcw Htight Hwf Hall glue body i mid0 w rest Hg Hb Hgl Hbd Hfo Huf Hst.
+  - cbn [toks_tail prios app]. eapply Run_end; [rewrite Hb; apply Hcur; [exact Hfo|intros _; exact Huf]|exact Hg|exact Hst].
+  - destruct Hall as [Hx' Hall]. destruct Hwf as [Hwx Hwf]. cbn [prios].
     set (b1 := toks_tail (TCons wb a txt wa x' r') ++ rest).
     assert (Hb1 : b1 = wst wb ++ (akind a, txt) :: wst wa ++ toks_operand x' ++ toks_tail r' ++ rest).
     { unfold b1. cbn [toks_tail]. now rewrite <- !app_assoc, <- app_comm_cons, <- !app_assoc. }
     assert (Hc1 : count_ws b1 = length wb).
     { rewrite Hb1, count_ws_wst. destruct a; cbn; lia. }
     eapply Run_op with (b1 := b1) (t := (akind a, txt)) (pre := wsT w) (b2 := wst wa ++ toks_operand x' ++ toks_tail r' ++ rest).
-    + rewrite Hb. apply Hx. apply follows_tail. exact Hfo.
+    + rewrite Hb. apply Hcur; [apply follows_tail; exact Hfo|intros Hu; apply unit_follows_tail; [apply Htight; exact Hu|exact Huf]].
     + exact Hg.
     + rewrite Hc1, Hb1. apply nth_error_wst.
     + cbn [fst]. apply op_of_arith.
@@ -219,45 +292,70 @@ Proof.
       assert (Hc2 : count_ws (wst wa ++ toks_operand x' ++ toks_tail r' ++ rest) = length wa)
         by (rewrite count_ws_wst, count_ws_operand; lia).
       rewrite Hc2.
-      apply (IH x' Hx' Hall glue body (S i)).
+      apply (IH false (toks_operand x') (trees_operand x')); try assumption.
+      * intros w' rest' Hf' _. apply Hx'. exact Hf'.
+      * intros l. apply count_ws_operand.
+      * discriminate.
       * specialize (Hgl 0). rewrite Nat.add_0_r in Hgl. rewrite Hgl. cbn [tglue toktree fst snd]. now rewrite <- !app_assoc.
       * specialize (Hbd 0). rewrite Nat.add_0_r in Hbd. rewrite Hbd. reflexivity.
       * intros m. specialize (Hgl (S m)). cbn [tglue] in Hgl. rewrite <- Hgl. f_equal. lia.
       * intros m. specialize (Hbd (S m)). cbn [tbody] in Hbd. rewrite <- Hbd. f_equal. lia.
-      * exact Hfo.
-      * exact Hst.
+  - destruct Hwf as [Htr Hwf]. cbn [prios]. cbn [all_operands] in Hall.
+    set (b1 := toks_tail (TTo wb txt wa un r') ++ rest).
+    assert (Hb1 : b1 = wst wb ++ (TO, txt) :: wst wa ++ [(WORD, un)] ++ toks_tail r' ++ rest).
+    { unfold b1. cbn [toks_tail]. now rewrite <- !app_assoc, <- app_comm_cons, <- !app_assoc. }
+    assert (Hc1 : count_ws b1 = length wb) by (rewrite Hb1, count_ws_wst; cbn; lia).
+    eapply Run_op with (b1 := b1) (t := (TO, txt)) (pre := wsT w) (b2 := wst wa ++ [(WORD, un)] ++ toks_tail r' ++ rest).
+    + rewrite Hb. apply Hcur; [apply follows_tail; exact Hfo|intros Hu; apply unit_follows_tail; [apply Htight; exact Hu|exact Huf]].
+    + exact Hg.
+    + rewrite Hc1, Hb1. apply nth_error_wst.
+    + reflexivity.
+    + rewrite Hc1, Hb1. symmetry. apply skipn_S_wst.
+    + rewrite Hc1. rewrite Hb1. rewrite firstn_wst. fold (wsT wb).
+      assert (Hc2 : count_ws (wst wa ++ [(WORD, un)] ++ toks_tail r' ++ rest) = length wa)
+        by (rewrite count_ws_wst; cbn; lia).
+      rewrite Hc2.
+      apply (IH true [(WORD, un)] [Grammar.Node UNIT [Grammar.Node WORD [Tok WORD un]]]); try assumption.
+      * intros w' rest' _ Hu'. apply unit_operand. apply Hu'. reflexivity.
+      * intros l. reflexivity.
+      * intros _. exact Htr.
+      * specialize (Hgl 0). rewrite Nat.add_0_r in Hgl. rewrite Hgl. cbn [tglue toktree fst snd]. now rewrite <- !app_assoc.
+      * specialize (Hbd 0). rewrite Nat.add_0_r in Hbd. rewrite Hbd. reflexivity.
+      * intros m. specialize (Hgl (S m)). cbn [tglue] in Hgl. rewrite <- Hgl. f_equal. lia.
+      * intros m. specialize (Hbd (S m)). cbn [tbody] in Hbd. rewrite <- Hbd. f_equal. lia.
 Qed.
 
 Lemma prios_length r : length (prios r) <= length (toks_tail r).
-Proof. induction r as [|wb a txt wa x r IH]; [cbn; lia|]. cbn [prios toks_tail length]. rewrite !app_length. cbn [length]. rewrite !app_length. lia. Qed.
+Proof. induction r as [|wb a txt wa x r IH|wb txt wa u r IH]; [cbn; lia| |]; cbn [prios toks_tail length]; repeat (rewrite app_length || cbn [length app]); lia. Qed.
 
-Lemma chain_expr fuel x r : operand_spec fuel x ->
-  (fix all (r : tail) : Prop := match r with TNil => True | TCons _ _ _ _ x' r' => operand_spec fuel x' /\ all r' end) r ->
-  expr_spec (S fuel) (Chain x r).
+Lemma chain_expr fuel x r : operand_spec fuel x -> wf_tail r -> all_operands fuel r -> expr_spec (S fuel) (Chain x r).
 Proof.
-  intros Hx Hall w rest F Hfo Hst. cbn [operation toks_expr trees_expr].
+  intros Hx Hwf Hall w rest F Hfo Huf Hst. cbn [operation toks_expr trees_expr].
   change (checkpoint (mkst ?B F)) with (length F). rewrite <- app_assoc.
   apply op_loop_climb.
-  - apply (chain_run fuel r x Hx Hall); try reflexivity; assumption.
+  - apply (chain_run fuel r false (toks_operand x) (trees_operand x)); try reflexivity; try assumption.
+    + intros w' rest' Hf' _. apply Hx. exact Hf'.
+    + intros l. apply count_ws_operand.
+    + discriminate.
   - change (buf (mkst ?B F)) with B. rewrite !app_length. pose proof (prios_length r). lia.
 Qed.
 
 (* every expression, every operand, at any fuel that covers the nesting *)
 Lemma all_specs :
-  (forall x, forall fuel, need_operand x <= fuel -> operand_spec fuel x) /\
-  (forall e, forall fuel, need_expr e <= fuel -> expr_spec fuel e) /\
-  (forall r, forall fuel, need_tail r <= fuel ->
-     (fix all (r : tail) : Prop := match r with TNil => True | TCons _ _ _ _ x' r' => operand_spec fuel x' /\ all r' end) r).
+  (forall x, forall fuel, need_operand x <= fuel -> wf_operand x -> operand_spec fuel x) /\
+  (forall e, forall fuel, need_expr e <= fuel -> wf_expr e -> expr_spec fuel e) /\
+  (forall r, forall fuel, need_tail r <= fuel -> wf_tail r -> all_operands fuel r).
 Proof.
   apply syntax_mut.
-  - intros t fuel Hf w rest Hfo. cbn [toks_operand trees_operand app]. apply number_operand; [exact Hf|exact Hfo].
-  - intros t wp pt fuel Hf w rest _. cbn [toks_operand trees_operand]. apply percent_operand. exact Hf.
-  - intros po pc w1 e IHe w2 fuel Hf. cbn [need_operand] in Hf. destruct fuel as [|fuel]; [lia|].
-    apply paren_operand. apply IHe. lia.
-  - intros x IHx r IHr fuel Hf. cbn [need_expr] in Hf. destruct fuel as [|fuel]; [lia|].
-    apply chain_expr; [apply IHx|apply IHr]; lia.
-  - intros fuel _. exact I.
-  - intros wb a txt wa x IHx r IHr fuel Hf. cbn [need_tail] in Hf. split; [apply IHx|apply IHr]; lia.
+  - intros t fuel Hf _ w rest Hfo. cbn [toks_operand trees_operand app]. apply number_operand; [exact Hf|exact Hfo].
+  - intros t wp pt fuel Hf _ w rest _. cbn [toks_operand trees_operand]. apply percent_operand. exact Hf.
+  - intros po pc w1 e IHe w2 fuel Hf Hw. cbn [need_operand] in Hf. destruct fuel as [|fuel]; [lia|].
+    apply paren_operand. apply IHe; [lia|exact Hw].
+  - intros x IHx r IHr fuel Hf [Hwx Hwr]. cbn [need_expr] in Hf. destruct fuel as [|fuel]; [lia|].
+    apply chain_expr; [apply IHx; [lia|exact Hwx]|exact Hwr|apply IHr; [lia|exact Hwr]].
+  - intros fuel _ _. exact I.
+  - intros wb a txt wa x IHx r IHr fuel Hf [Hwx Hwr]. cbn [need_tail] in Hf. split; [apply IHx|apply IHr]; try assumption; lia.
+  - intros wb txt wa u r IHr fuel Hf [_ Hwr]. cbn [need_tail] in Hf. cbn [all_operands]. apply IHr; assumption.
 Qed.
 
 Lemma need_bound :
@@ -272,6 +370,7 @@ Proof.
   - intros x IHx r IHr. cbn [need_expr toks_expr]. rewrite app_length. lia.
   - cbn. lia.
   - intros wb a txt wa x IHx r IHr. cbn [need_tail toks_tail]. rewrite !app_length. cbn [length]. rewrite !app_length. lia.
+  - intros wb txt wa u r IHr. cbn [need_tail toks_tail]. repeat (rewrite app_length || cbn [length app]). lia.
 Qed.
 
 (* ---- the whole parser ---- *)
@@ -288,10 +387,10 @@ Lemma root_step f c skip error s : root_loop (S f) c skip error s =
   end.
 Proof. reflexivity. Qed.
 
-Theorem parse_expression : forall (w0 : blanks) (e : expr) (w1 : blanks),
+Theorem parse_expression : forall (w0 : blanks) (e : expr) (w1 : blanks), wf_expr e ->
   parse_root (wst w0 ++ toks_expr e ++ wst w1) = Some (trees_expr w0 e ++ wsT w1).
 Proof.
-  intros w0 e w1. unfold parse_root.
+  intros w0 e w1 Hwf. unfold parse_root.
   set (toks := wst w0 ++ toks_expr e ++ wst w1).
   change {| buf := toks; forest := [] |} with (mkst toks []).
   change (count_skip (mkst toks [])) with (count_ws toks). change (checkpoint (mkst toks [])) with 0.
@@ -306,7 +405,9 @@ Proof.
                 = Some (Some (count_ws (wst w1)), mkst (wst w1) ([] ++ trees_expr w0 e))).
   { apply (proj1 (proj2 all_specs) e).
     - pose proof (proj1 (proj2 need_bound) e). change (buf (mkst toks [])) with toks. unfold toks. rewrite !app_length. lia.
+    - exact Hwf.
     - unfold follows. rewrite Hend. repeat split; discriminate.
+    - apply unit_follows_end.
     - now rewrite Hend. }
   rewrite count_ws_only in Hop. cbn [app] in Hop.
   assert (Hlast : root_loop (S (length toks)) 0 (length w1) false (mkst (wst w1) (trees_expr w0 e)) =
@@ -317,19 +418,20 @@ Proof.
 Qed.
 
 (* ... and the tree is the documented grammar's: inside every group, [canon] over the three priority levels *)
-Definition levels3 : list nat := [2; 3; 10].
+Definition levels4 : list nat := [1; 2; 3; 10].
 Lemma mkin_atoms i qs : atoms (mkin i qs).
 Proof. revert i. induction qs as [|q qs IH]; intros i o x H; cbn in H; [tauto|]. destruct H as [H|H]; [inversion H; eauto|eapply IH; eauto]. Qed.
-Lemma prios_levels r i : forall o y, In (o, y) (mkin i (prios r)) -> In (prio o) levels3.
+Lemma prios_levels r i : forall o y, In (o, y) (mkin i (prios r)) -> In (prio o) levels4.
 Proof.
-  revert i. induction r as [|wb a txt wa x r IH]; intros i o y H; cbn [prios mkin] in H; [destruct H|].
-  destruct H as [H|H]; [inversion H; subst; destruct a; cbn; tauto|eapply IH; exact H].
+  revert i. induction r as [|wb a txt wa x r IH|wb txt wa u r IH]; intros i o y H; cbn [prios mkin] in H; [destruct H| |].
+  - destruct H as [H|H]; [inversion H; subst; destruct a; cbn; tauto|eapply IH; exact H].
+  - destruct H as [H|H]; [inversion H; subst; cbn; tauto|eapply IH; exact H].
 Qed.
 Theorem group_is_canon : forall (w : blanks) (x : operand) (r : tail),
   trees_expr w (Chain x r) =
     ritems (fun n => match n with O => wsT w | S m => tglue r m end)
            (fun n => match n with O => trees_operand x | S m => tbody r m end)
-           (canon levels3 (Leaf 0, mkin 0 (prios r))).
+           (canon levels4 (Leaf 0, mkin 0 (prios r))).
 Proof.
   intros w x r. cbn [trees_expr]. f_equal. apply climb_eq_canon; [repeat constructor|apply mkin_atoms|apply prios_levels].
 Qed.
